@@ -252,15 +252,27 @@ pub fn drive_chain(w: u32, s: u32, precs: &[usize], seed: u64, n_rounds: usize, 
 pub fn drive_bound(seed: u64, n_syms: usize) -> Report {
     use crate::range::*;
     let mut rep = Report::default();
-    for (w, s, precs) in [(32u32, 64u32, vec![24usize, 16, 32, 8]), (16, 32, vec![12, 16, 8]), (16, 64, vec![16, 12]), (8, 32, vec![8, 4]), (8, 16, vec![8, 4, 1]), (64, 128, vec![32, 24])] {
+    for (w, s, precs) in [(32u32, 64u32, vec![24usize, 16, 32, 8]), (16, 32, vec![12, 16, 8]), (16, 64, vec![16, 12]), (8, 32, vec![8, 4]), (8, 64, vec![8, 4]), (8, 16, vec![8, 4, 1]), (64, 128, vec![32, 24])] {
         let mut rng = Xoshiro256StarStar::seed_from_u64(seed ^ 0xb0d ^ ((w as u64) << 8) ^ s as u64);
         let ctxv = json!({"k": "drive_bound", "w": w, "s": s, "seed": seed});
-        for fixed_p in [true, false] {
+        for mode in 0..3 {
+            let fixed_p = mode != 1;
+            // mode 2: adversarial message: of six random candidates take the symbol that wastes most (bits gained minus
+            // information content) on the ANS coder; the bound is a worst-case statement, so it must survive that
+            let n_syms = if mode == 2 { n_syms.min(1500) } else { n_syms };
             let mut ans = ans_new(w, s); let mut enc = renc_new(w, s);
             let (mut info, mut eps_ans, mut eps_rng) = (0f64, 0f64, 0f64);
             for n in 1..=n_syms {
                 let prec = if fixed_p { precs[0] } else { precs[rng.gen_range(0..precs.len())] };
-                let cdf = random_cdf(&mut rng, prec); let sym = rng.gen_range(0..cdf.len() - 1);
+                let (cdf, sym) = if mode == 2 {
+                    let mut best: Option<(f64, Vec<u64>, usize)> = None;
+                    let before = ans.num_valid_bits() as f64;
+                    for _ in 0..6 { let cdf = random_cdf(&mut rng, prec); let sym = rng.gen_range(0..cdf.len() - 1);
+                        let mut t = ans.clone_box(); t.enc(prec, &cdf, sym).unwrap();
+                        let waste = t.num_valid_bits() as f64 - before - (prec as f64 - ((cdf[sym + 1] - cdf[sym]) as f64).log2());
+                        if best.as_ref().map_or(true, |b| waste > b.0) { best = Some((waste, cdf, sym)); } }
+                    let b = best.unwrap(); (b.1, b.2)
+                } else { let cdf = random_cdf(&mut rng, prec); let sym = rng.gen_range(0..cdf.len() - 1); (cdf, sym) };
                 let p = (cdf[sym + 1] - cdf[sym]) as f64;
                 info += prec as f64 - p.log2();
                 let k = (s - w) as i32 - prec as i32;
@@ -276,8 +288,8 @@ pub fn drive_bound(seed: u64, n_syms: usize) -> Report {
                 if enc.num_words() > n + (s / w) as usize { rep.mismatch(&ctxv, format!("RangeEncoder<{},{}>: {} words after {} symbols", w, s, enc.num_words(), n)); return rep; }
                 if n % 97 == 0 { let _ = enc.get_compressed(); let _ = ans.get_compressed(); let _ = ans.get_binary(); }
             }
-            rep.cases += 1; rep.class(if fixed_p { "bound_fixed_precision" } else { "bound_varying_precision" });
-            if w == 32 && fixed_p { let per_symbol = eps_ans / n_syms as f64; if per_symbol >= 0.006 { rep.mismatch(&ctxv, format!("default preset rounding term {} >= 0.006 bit", per_symbol)); } rep.class("default_preset_overhead_below_0.006"); }
+            rep.cases += 1; rep.class(match mode { 0 => "bound_fixed_precision", 1 => "bound_varying_precision", _ => "bound_adversarial_message" });
+            if w == 32 && mode == 0 { let per_symbol = eps_ans / n_syms as f64; if per_symbol >= 0.006 { rep.mismatch(&ctxv, format!("default preset rounding term {} >= 0.006 bit", per_symbol)); } rep.class("default_preset_overhead_below_0.006"); }
         }
     }
     rep
